@@ -384,4 +384,184 @@ def Site.accounted (s : Site) : Bool := oracleCovered.contains s.func || structu
 /-- why the `where` form matters: the multiplicative variant `kspace * mask` (mask 0/1) -/
 def mulMask (mv : Int) (kv : FVal) : Option FVal := FVal.mulInt mv kv
 
+/-! ## phase 3 — hard data consistency (SSL / JSSL engines, VSharp engines), the pipeline path
+`CreateSamplingMask → ApplyMask`, the multiplicative ACS sites, structural tables -/
+
+namespace FVal
+/-- forget the sign of a zero (what `x + 0.0` does to `x`) -/
+def unsign : FVal → FVal
+  | negZero => posZero
+  | v => v
+
+/-- not an infinity -/
+def isFinite : FVal → Bool
+  | posInf => false
+  | negInf => false
+  | _ => true
+
+/-- IEEE round-to-nearest `a + b` on the exactly representable domain (small integers; an infinity or a
+zero with anything); `none` is NaN (`inf + -inf`). -/
+def add : FVal → FVal → Option FVal
+  | posZero, posZero => some posZero
+  | posZero, negZero => some posZero
+  | negZero, posZero => some posZero
+  | negZero, negZero => some negZero
+  | posZero, fin b => some (fin b)
+  | negZero, fin b => some (fin b)
+  | fin a, posZero => some (fin a)
+  | fin a, negZero => some (fin a)
+  | fin a, fin b => some (if a + b = 0 then posZero else fin (a + b))
+  | posInf, negInf => none
+  | negInf, posInf => none
+  | posInf, _ => some posInf
+  | negInf, _ => some negInf
+  | _, posInf => some posInf
+  | _, negInf => some negInf
+end FVal
+
+/-- `~mask` of a boolean mask (entries 0 / 1) -/
+def notMask (m : Tensor Int) : Tensor Int :=
+  { shape := m.shape, data := m.data.map fun v => if v == 0 then 1 else 0 }
+
+/-- elementwise sum of two tensors of equal shape; a NaN result is the ill-formed value `fin 0` -/
+def addT (a b : Tensor FVal) : Option (Tensor FVal) :=
+  if a.shape = b.shape then
+    some { shape := a.shape, data := List.zipWith (fun u v => (FVal.add u v).getD (.fin 0)) a.data b.data }
+  else none
+
+/-- the hard data-consistency step of the SSL / JSSL / VSharp engines:
+`kspace + apply_mask(prediction, ~mask)` -/
+def hardDC (m : Tensor Int) (y p : Tensor FVal) : Option (Tensor FVal) :=
+  match applyMask (notMask m) p with
+  | .ok q => addT y q
+  | _ => none
+
+/-- `SSLMRIModelEngine._do_iteration` / `JSSLMRIModelEngine._do_iteration` up to the loss:
+`apply_padding(kspace + apply_mask(prediction, ~mask), padding)` and, in SSL training, the projection
+`apply_mask(·, target_sampling_mask)` -/
+def sslOutput (m : Tensor Int) (y p : Tensor FVal) (pad : Option (Tensor Int)) (tgt : Option (Tensor Int)) :
+    Option (Tensor FVal) :=
+  match hardDC m y p with
+  | none => none
+  | some o =>
+    match applyPadding pad o with
+    | .ok o' =>
+      match tgt with
+      | none => some o'
+      | some t => (applyMask t o').toOption
+    | _ => none
+
+/-! ### `CreateSamplingMask` → `ApplyMask` (the mask-function path of the training pipeline) -/
+
+/-- `CreateSamplingMask.__call__`: the shape handed to the mask function.  `shape=None` (or empty): `kspace.shape[1:]`;
+a shape with `None` entries: those (and zeros — the code tests truthiness) are taken from `kspace.shape[1:-1]`, then
+`+ (2,)`; a complete shape: as given `+ (2,)`.  `none` = `IndexError`. -/
+def createMaskShape (opt : Option (List (Option Nat))) (kshape : List Nat) : Option (List Nat) :=
+  match opt with
+  | none => some (kshape.drop 1)
+  | some [] => some (kshape.drop 1)
+  | some l =>
+    if l.any Option.isNone then
+      let ks := (kshape.drop 1).dropLast
+      (l.zipIdx.mapM fun (oi : Option Nat × Nat) => match oi.1 with
+        | some (n + 1) => some (n + 1)
+        | _ => ks[oi.2]?).map (· ++ [2])
+    else some (l.map (·.getD 0) ++ [2])
+
+/-- `seed = None if not use_seed else tuple(map(ord, str(filename)))` -/
+def seedOf (useSeed : Bool) (filename : List Int) : Option (List Int) :=
+  if useSeed then some filename else none
+
+/-- the sampling mask `CreateSamplingMask` stores: `mask_func(shape, seed, return_acs=False)` with the padded
+positions cleared by `apply_padding` when the sample has a `padding` entry.  Boolean masks are `FVal` tensors
+(`False ↦ +0`, `True ↦ fin 1`) so that `apply_padding` / `apply_mask` are the modelled functions. -/
+def createSamplingMask {π} [Inhabited π] [MaskVal π] (mf : List Nat → Option (List Int) → Tensor FVal)
+    (opt : Option (List (Option Nat))) (useSeed : Bool) (filename : List Int) (pad : Option (Tensor π))
+    (k : Tensor FVal) : Option (Tensor FVal) :=
+  match createMaskShape opt k.shape with
+  | none => none
+  | some shp => (applyPadding pad (mf shp (seedOf useSeed filename))).toOption
+
+/-- … followed by `ApplyMask` -/
+def pipelineMasked {π} [Inhabited π] [MaskVal π] (mf : List Nat → Option (List Int) → Tensor FVal)
+    (opt : Option (List (Option Nat))) (useSeed : Bool) (filename : List Int) (pad : Option (Tensor π))
+    (k : Tensor FVal) : Option (Tensor FVal × Tensor FVal) :=
+  match createSamplingMask mf opt useSeed filename pad k with
+  | none => none
+  | some m => ((applyMask m k).toOption).map fun o => (o, m)
+
+/-! ### the multiplicative ACS sites of the data pipeline -/
+
+/-- `kspace * acs_mask + 0.0` (`EstimateSensitivityMapModule.estimate_acs_image`, `EstimateBodyCoilImage`) for a
+0/1 mask entry: NaN (`fin 0`) for an infinite k-space entry under a zero mask entry -/
+def mulPlusZero (mv : Int) (kv : FVal) : FVal :=
+  ((FVal.mulInt mv kv).bind (FVal.add · .posZero)).getD (.fin 0)
+
+/-- the k-space those sites hand to the backward operator -/
+def acsKspace (m : Tensor Int) (k : Tensor FVal) : Option (Tensor FVal) := whereWith mulPlusZero m k
+
+/-! ### structural facts of the functions that decide the property -/
+
+/-- what the translator reads off a function body -/
+structure FuncFacts where
+  name : String
+  returns : Nat          -- `return` statements
+  inputReturns : Nat     -- returns that hand back a data parameter itself (aliasing / skipped masking)
+  stateWrites : Nat      -- `global` / `nonlocal`, writes to `self.*`, to module-level containers, to function attributes,
+                         -- to mutable default arguments, caching decorators
+  inplaceOnArgs : Nat    -- subscript / augmented assignments and `…_()` / `out=` calls on a parameter
+  ifs : Nat              -- `if` statements and conditional expressions
+  loops : Nat            -- `for` / `while` / comprehensions
+deriving Repr, DecidableEq
+
+/-- no state survives a call and no argument is modified -/
+def FuncFacts.pure (f : FuncFacts) : Bool := f.stateWrites == 0 && f.inplaceOnArgs == 0
+
+/-- the facts of the modelled code (what `applyMask`, `applyPadding`, `applyMaskModule`, `createSamplingMask`,
+`fwdOp`, `bwdOp`, `aStarOp`, `loglik` presuppose): straight-line functions of their arguments; the only return of an
+input is `apply_padding`'s documented `padding is None` case -/
+def expectedFacts : List FuncFacts :=
+  [ { name := "apply_mask", returns := 2, inputReturns := 0, stateWrites := 0, inplaceOnArgs := 0, ifs := 2, loops := 0 },
+    { name := "apply_padding", returns := 2, inputReturns := 1, stateWrites := 0, inplaceOnArgs := 0, ifs := 1, loops := 0 },
+    { name := "ApplyMaskModule.forward", returns := 1, inputReturns := 0, stateWrites := 0, inplaceOnArgs := 0, ifs := 2, loops := 0 },
+    { name := "ApplyZeroPadding.__call__", returns := 1, inputReturns := 0, stateWrites := 0, inplaceOnArgs := 0, ifs := 0, loops := 0 },
+    { name := "CreateSamplingMask.__call__", returns := 1, inputReturns := 0, stateWrites := 0, inplaceOnArgs := 0, ifs := 6, loops := 2 },
+    { name := "ModuleWrapper.SubWrapper.__call__", returns := 1, inputReturns := 0, stateWrites := 0, inplaceOnArgs := 0, ifs := 6, loops := 2 },
+    { name := "MRIModelEngine._forward_operator", returns := 1, inputReturns := 0, stateWrites := 0, inplaceOnArgs := 0, ifs := 0, loops := 0 },
+    { name := "MRIModelEngine._backward_operator", returns := 1, inputReturns := 0, stateWrites := 0, inplaceOnArgs := 0, ifs := 0, loops := 0 },
+    { name := "MRILogLikelihood.forward", returns := 1, inputReturns := 0, stateWrites := 0, inplaceOnArgs := 0, ifs := 1, loops := 0 },
+    { name := "ConjGrad._A_star_op", returns := 1, inputReturns := 0, stateWrites := 0, inplaceOnArgs := 0, ifs := 0, loops := 0 } ]
+
+/-! ### masking sites outside `direct/nn` (data pipeline, SSL transforms, datasets) -/
+
+/-- accepted there: the verified `apply_mask` / `where` forms; products of masks with masks / comparisons (boolean
+algebra on masks, no k-space involved); and the two known multiplicative ACS sites (`kspace * acs_mask + 0.0`, see
+`acs_mul_current_violates`) — any other product of data with a mask is rejected -/
+def acsMulAllowed : List String :=
+  ["EstimateSensitivityMapModule.estimate_acs_image", "EstimateBodyCoilImage.__call__"]
+
+def Site.wfData (s : Site) : Bool :=
+  match s.form with
+  | .whereForm w => w.wf && s.zeroDtypeOf != ""
+  | .applyMask _ => true
+  | .operatorCall _ => true
+  | .flagged what =>
+    what == "mask algebra" || (what == "multiplication by the mask, + 0.0" && acsMulAllowed.contains s.func)
+
+/-- how many masking sites each covered function of `direct/nn` has (a site that disappears is a lost masking) -/
+def expectedSiteCounts : List (String × Nat) :=
+  [("RIMBlock.forward", 1), ("ConjGrad._A_star_op", 1), ("ConjGrad._A_star_A_op", 1), ("ConjGrad.B_op", 1), ("ConjGrad.cg", 1),
+   ("CrossDomainNetwork.kspace_correction", 1), ("CrossDomainNetwork.image_correction", 1),
+   ("CrossDomainNetwork._forward_operator", 1), ("CrossDomainNetwork._backward_operator", 1), ("CrossDomainNetwork.forward", 1),
+   ("IterDualNet._forward_operator", 1), ("IterDualNet._backward_operator", 1), ("IterDualNet.forward", 2),
+   ("JointICNet._forward_operator", 1), ("JointICNet._backward_operator", 1), ("JointICNet.forward", 5), ("KIKINet.forward", 2),
+   ("LPDNet._forward_operator", 1), ("LPDNet._backward_operator", 1), ("LPDNet.forward", 3),
+   ("MRIModelEngine._forward_operator", 1), ("MRIModelEngine._backward_operator", 1), ("RecurrentVarNetBlock.forward", 1),
+   ("MRILogLikelihood.forward", 2), ("SSLMRIModelEngine._do_iteration", 3), ("JSSLMRIModelEngine._do_iteration", 3),
+   ("EndToEndVarNetBlock.forward", 1), ("MRIVarSplitNet.forward", 2), ("VSharpNet.forward", 1), ("VSharpNet3D.forward", 1),
+   ("VSharpNet3DEngine.forward_function", 1), ("VSharpNetEngine.forward_function", 1), ("VSharpNetSSLEngine._do_iteration", 3),
+   ("VSharpNetJSSLEngine._do_iteration", 2)]
+
+def siteCount (sites : List Site) (f : String) : Nat := (sites.filter fun s => s.func == f).length
+
 end DirectVerif.Mask
